@@ -23,6 +23,8 @@ namespace sched
     {
         int preemption_bound = 2;
         int horizon = 400;   // scheduling points per execution
+        bool post_release_points = false; // an extra scheduling point right AFTER every mutex unlock / sem_post took effect: what a
+                                          // thread does after releasing (plain stores, atomics) can then interleave with the next owner
         int spurious_bound = 0; // environment deviation: up to this many spurious condition-variable wake-ups (POSIX allows them)
         int shard = 0;       // harness-level partition of the schedule space:
         int nshard = 1;      //   executions whose first `shard_depth` decisions hash to another shard
